@@ -79,7 +79,15 @@ func c20StoreBitsStream(rc *runCtx, fs *c20Files, note func(kind, key string), h
 					p2 = q2
 				}
 				dp := math.Float32bits(vs.DistanceFromPoint(p1)(p2))
-				df := math.Float32bits(vs.DistanceFromFloat(append([]float32(nil), v1...))(p2))
+				// the distance function of a query is used while those of other queries on the same store are alive (a
+				// composite request runs its vector sub-queries on one cached store): ask for a second one in between
+				dfn := vs.DistanceFromFloat(append([]float32(nil), v1...))
+				otherQ := make([]float32, n)
+				for i := range otherQ {
+					otherQ[i] = float32(r.IntN(7)-2) / 2
+				}
+				_ = vs.DistanceFromFloat(otherQ)(p1)
+				df := math.Float32bits(dfn(p2))
 				fs.add(fmt.Sprintf("CStoreBits %d %s %s %d %d", mi, c20ZList(z1), c20ZList(z2), dp, df))
 				note("storebits/"+metric+"/"+blk.name, fmt.Sprint(n, z1, z2))
 				hist["binary store "+metric+", block: "+blk.name]++
